@@ -49,6 +49,9 @@ def desc_str(desc):
         if g["t"] == "L":
             if g["n"]:
                 parts.append("L%d.%d" % (g["n"], g["s"]))
+        elif g["t"] == "C":
+            if g["n"]:
+                parts.append("C%d.%d" % (g["n"], g["m"]))
         elif g["len"]:
             parts.append("R%d.%d" % (g["off"], g["len"]))
     return ",".join(parts) if parts else "-"
